@@ -24,6 +24,9 @@ SUBJ = {
  "D28": "fix: BlockFilterHashes with hostile numbers",
  "D29": "fix: verify_mmr_proof rejects numbers",
  "D30": "fix: the last-n range check of a proof",
+ "D31": "fix: reject a transactions merkle proof with index",
+ "D32": "fix: the sampled / last-n split of a proof",
+ "D33": "fix: verify the extra fields of compatibly parsed",
  "D8": "fix: the child fast path checks the chain root",
  "D24": "fix: do not prepend overlapping old headers",
 }
